@@ -30,6 +30,16 @@ def is_lv(x):
     return isinstance(x, tuple) and len(x) == 3 and x[0] == 'lv'
 
 
+def int_width(t):
+    """width in bits of an integer type on the LP64 target of this build, or None"""
+    t = (t or '').replace('const ', '').replace('volatile ', '').strip()
+    table = {'bool': 1, 'char': 8, 'signed char': 8, 'unsigned char': 8, 'short': 16, 'unsigned short': 16,
+             'int': 32, 'unsigned int': 32, 'unsigned': 32, 'long': 64, 'unsigned long': 64,
+             'long long': 64, 'unsigned long long': 64, 'std::size_t': 64, 'size_t': 64,
+             'std::ptrdiff_t': 64, 'ptrdiff_t': 64, 'std::streamsize': 64}
+    return table.get(t)
+
+
 class State:
     __slots__ = ('env', 'refs', 'pc')
 
@@ -1652,6 +1662,9 @@ class SymEx:
             self.effect(st, 'conv', operand=v, where=e.where(), node=e.cid, to=e.ty,
                         func=self.frames[-1].func.qualname if self.frames else None)
             return ('trunc', v)
+        if k == 'IntegralCast' and not is_num(v):
+            self.effect(st, 'narrow', operand=v, where=e.where(), node=e.cid, to=e.a.get('to'), frm=e.a.get('frm'),
+                        func=self.frames[-1].func.qualname if self.frames else None)
         if k in ('IntegralToBoolean', 'FloatingToBoolean', 'PointerToBoolean'):
             return T.cmp('!=', v, ZERO) if not (isinstance(v, tuple) and v[0] in (
                 'bool', '<', '<=', '>', '>=', '==', '!=', 'and', 'or', 'not')) else v
